@@ -675,4 +675,42 @@ theorem exec_safe (m : Machine) (pc : Nat) (hpc : pc < usizeMax) (hnl : nextLast
   | Deserialize  => exact exec_safe_Deserialize m pc hpc hnl hcap 
   | Meta a0 => exact exec_safe_Meta m pc hpc hnl hcap a0
 
+/-! ### entry wrappers (`setup_*`, `call_*` before `run`) -/
+
+theorem safe_clearCalls : SafeQ clearCalls T := fun _ hs => ⟨⟨hs.stack, by intro x hx; cases hx⟩, trivial⟩
+theorem safe_clearScope : SafeQ clearScope T := fun _ hs => ⟨⟨hs.stack, hs.calls⟩, trivial⟩
+
+macro_rules
+  | `(tactic| safe_tac) => `(tactic| first | exact safe_clearCalls | exact safe_clearScope)
+
+theorem safe_setupFunction (m : Machine) (name : Nat) (lt : LabelType) : SafeQ (setupFunction m name lt) T := by
+  unfold setupFunction; simp only [bind_eq, pure_eq]; safe_tac
+
+theorem safe_pushAll (vs : List Value) : SafeQ (pushAll vs) T := by
+  induction vs with
+  | nil => unfold pushAll; simp only [pure_eq]; safe_tac
+  | cons v r ih =>
+    unfold pushAll; simp only [bind_eq]
+    apply safe_bind
+    · safe_tac
+    · intro _ _; exact ih
+
+macro_rules
+  | `(tactic| safe_tac) => `(tactic| first | exact safe_setupFunction _ _ _ | exact safe_pushAll _)
+
+theorem safe_setupAction (m : Machine) (name : Nat) (args : List Value) : SafeQ (setupAction m name args) T := by
+  unfold setupAction; simp only [bind_eq, pure_eq]; safe_tac
+
+theorem safe_setupCommand (m : Machine) (lt : LabelType) (tn : Nat) (tf : Fields) :
+    SafeQ (setupCommand m lt tn tf) T := by
+  unfold setupCommand; simp only [bind_eq, pure_eq]; safe_tac
+
+macro_rules
+  | `(tactic| safe_tac) => `(tactic| first | exact safe_setupAction _ _ _ | exact safe_setupCommand _ _ _ _)
+
+/-- every entry wrapper, on every machine, with arbitrary names / arguments / `this` data: no panic,
+and the state handed to `run` is well-formed -/
+theorem enter_safe (m : Machine) (e : Entry) : SafeQ (enter m e) T := by
+  cases e <;> (simp only [enter, bind_eq, pure_eq]; safe_tac)
+
 end AranyaV.VM
